@@ -21,7 +21,8 @@ META = {
             "(the multiset of items in the local bags plus in flight is exactly what was inserted, through any history, any schedule, any "
             "iteration order of rebalance's to_send map, any shuffle outcome), rebalance_counts/rebalance_balanced/rebalance_some (afterwards "
             "rank r holds Part.localSize total ranks r items for every total incl. 0 and < ranks; no division trap, no failing local_pop "
-            "assertion, no send outside the communicator), gather_spec/gatherAll_spec, tag_injective/tag_eq/insert_fresh/tag_visits_item over "
+            "assertion, no send outside the communicator), gather_spec/gatherAll_spec, tag_injective/tag_eq/insert_fresh/tag_visits_item/swap_inv/insert_fresh_after_swap (tags stay unique "
+            "through tagged_bag::swap because contents and counters are exchanged together) over "
             "YgmVerif.BagOps. The model uses the repaired block size (size % ranks); pinned_traps proves that the expression of the tree as "
             "found (size / ranks) divides by zero whenever 0 < total < ranks. The model is tied to bag.ipp/tagged_bag.hpp by running generated "
             "histories on the real code and comparing every rank's local vector (exact order), gather results and tags with the model's.",
@@ -34,8 +35,9 @@ META = {
 RULE = ("generated: per communicator size R in 1..8 a history = initial placement (all on one rank / round-robin from one or several ranks / "
         "explicit destinations leaving ranks empty / vectors incl. empty / fewer items than ranks / none) followed by 2-6 operations drawn from "
         "rebalance, local_shuffle(seed), global_shuffle(seed), more inserts, swap with a second bag, clear, gather_to_vector(dest), "
-        "gather_to_vector(), size(); a dump of every rank's vector after each; tagged_bag histories = inserts from several ranks, visits and "
-        "erases through the returned tags from other ranks, all_gather; a case = (R, layout, routing, buffer, schedule seed, script); "
+        "gather_to_vector(), size(); a dump of every rank's vector after each; tagged_bag histories = two tagged bags filled to different levels "
+        "from several ranks, visits and erases through the returned tags from other ranks, swap of the two bags followed by further inserts / visits / "
+        "erases in both, all_gather, size; a case = (R, layout, routing, buffer, schedule seed, script); "
         "non-trivial = at least one item inserted")
 
 ROUTES = ["NONE", "NR", "NLNR"]
@@ -129,44 +131,75 @@ def gen_bag_case(rng, R, placement):
 
 
 def gen_tbag_case(rng, R):
-    ops, live, serial = [], {}, [0] * R
-    n = rng.randrange(1, 4 * R + 2)
-    for k in range(n):
-        r = rng.randrange(R) if rng.random() < 0.7 else 0
-        tag = (r << 40) + serial[r]
-        serial[r] += 1
-        x = rng.randrange(0, 1000)
-        live[tag] = x
-        ops.append(f"i {r} {x}")
-    ops += ["B", "D"]
-    tags = sorted(live)
-    dead = []
-    for _ in range(rng.randrange(1, 4)):
+    """two tagged bags filled to different levels, work through the returned tags, swap, more inserts / visits / erases"""
+    ops = []
+    st = [{"serial": [0] * R, "live": [], "dead": []} for _ in range(2)]
+    cur = [0]
+    nins = [0]
+
+    def ins(r=None):
+        b = st[cur[0]]
+        r = (rng.randrange(R) if rng.random() < 0.7 else 0) if r is None else r
+        b["live"].append((r << 40) + b["serial"][r])
+        b["serial"][r] += 1
+        nins[0] += 1
+        ops.append(f"i {r} {rng.randrange(0, 1000)}")
+
+    def work():
+        b = st[cur[0]]
         for _ in range(rng.randrange(1, 2 * R + 2)):
-            if not tags:
-                break
             k = rng.random()
-            if k < 0.5:
-                ops.append(f"{rng.choice('VX')} {rng.randrange(R)} {rng.choice(tags)} {rng.randrange(1, 50)}")
-            elif k < 0.7 and dead:
-                ops.append(f"X {rng.randrange(R)} {rng.choice(dead)} {rng.randrange(1, 50)}")     # no effect on an erased tag
-            elif k < 0.85:
-                t = rng.choice(tags)
-                tags.remove(t); dead.append(t)
+            if k < 0.5 and b["live"]:
+                ops.append(f"{rng.choice('VX')} {rng.randrange(R)} {rng.choice(b['live'])} {rng.randrange(1, 50)}")
+            elif k < 0.65 and b["dead"]:
+                ops.append(f"X {rng.randrange(R)} {rng.choice(b['dead'])} {rng.randrange(1, 50)}")     # no effect on an erased tag
+            elif k < 0.8 and b["live"]:
+                t = rng.choice(b["live"])
+                b["live"].remove(t); b["dead"].append(t)
                 # erase and visit of one tag must not race (async_visit of a missing tag default-constructs it)
-                ops += ["B", f"E {rng.randrange(R)} {t}", "B"]
+                ops.extend(["B", f"E {rng.randrange(R)} {t}", "B"])
             else:
-                ops.append(f"i {rng.randrange(R)} {rng.randrange(0, 1000)}")
-                # tag of this insert is determined when the script is interpreted (see interpret_tbag)
-        ops += ["B", "D"]
-    q = rng.sample(tags + dead, min(len(tags + dead), rng.randrange(1, 6))) if (tags + dead) else []
-    if q:
-        ops.append("g " + ",".join(map(str, q)))
-    ops.append("z")
+                ops.append("B")     # a tag is visited only after the barrier that follows its insert
+                ins()
+                ops.append("B")
+        ops.extend(["B", "D"])
+
+    def select(n):
+        cur[0] = n
+        ops.append(f"T {n}")
+
+    n0 = rng.randrange(1, 2 * R + 2)
+    for _ in range(n0):
+        ins()
+    select(1)
+    n1 = rng.choice([0, n0 + rng.randrange(1, 2 * R + 2), rng.randrange(0, 4 * R + 2)])
+    for _ in range(n1):
+        ins()
+    ops.extend(["B", "D"])
+    select(0)
+    ops.append("D")
+    work()
+    for _ in range(rng.randrange(1, 3)):
+        ops.append("S")
+        st[0], st[1] = st[1], st[0]
+        for n in rng.sample([0, 1], 2):
+            select(n)
+            ops.append("D")
+            for _ in range(rng.randrange(1, R + 3)):      # new inserts: their tags must avoid every live tag of the swapped-in contents
+                ins()
+            ops.extend(["B", "D"])
+            work()
+    for n in (0, 1):
+        select(n)
+        b = st[n]
+        pool = b["live"] + b["dead"]
+        if pool:
+            ops.append("g " + ",".join(map(str, rng.sample(pool, min(len(pool), rng.randrange(1, 6))))))
+        ops.append("z")
     nodes, ppn = rng.choice(layouts(R))
     return {"mode": "tbag", "ranks": R, "script": ";".join(ops), "nodes": nodes, "ppn": ppn, "routing": rng.choice(ROUTES),
             "buffer_kb": rng.choice([0, 0, 1, None]), "sim_seed": rng.randrange(1, 1 << 30), "policy": rng.choice(POLICIES),
-            "placement": "tbag", "inserted": n}
+            "placement": "tbag", "inserted": nins[0]}
 
 
 # --------------------------------------------------------------------------- running
@@ -423,31 +456,6 @@ def trap_signature(case, sr):
     return "bag-rebalance-trap", tot
 
 
-def interpret_tbag(case):
-    """python reading of a tagged-bag script: expected tags in issue order, expected store at each dump, gathers"""
-    R = case["ranks"]
-    serial = [0] * R
-    store = {}
-    tags, dumps, gets = [], [], []
-    for op in case["script"].split(";"):
-        f = op.split()
-        if f[0] == "i":
-            r = int(f[1]); t = (r << 40) + serial[r]; serial[r] += 1
-            store[t] = int(f[2]); tags.append((r, t))
-        elif f[0] in ("V", "X"):
-            t = int(f[2])
-            if t in store:
-                store[t] = (store[t] + int(f[3])) & M64
-        elif f[0] == "E":
-            store.pop(int(f[2]), None)
-        elif f[0] == "D":
-            dumps.append(dict(store))
-        elif f[0] == "g":
-            q = sorted(set(int(x) for x in f[1].split(",")))
-            gets.append({t: store[t] for t in q if t in store})
-    return tags, dumps, gets, len(store)
-
-
 def model_line_tbag(case):
     toks = []
     for op in case["script"].split(";"):
@@ -457,10 +465,16 @@ def model_line_tbag(case):
         elif f[0] == "E": toks.append(f"E:{f[2]}")
         elif f[0] == "D": toks.append("D")
         elif f[0] == "g": toks.append("g:" + f[1])
+        elif f[0] == "T": toks.append("T:" + f[1])
+        elif f[0] == "S": toks.append("S")
     return f"tb {case['ranks']} | " + " ".join(toks)
 
 
 def evaluate_tbag(case, sr, mo):
+    """walk the script along the real outputs of the two tagged bags.
+    Oracle (the property's own clauses, on the REAL tags): an insert never returns the tag of a live item of that bag; after every
+    barrier each bag holds exactly the live items, each under the tag its insert returned, on the rank owner(tag) names;
+    a visit / erase through a tag touches exactly that item; all_gather and size agree.  swap exchanges the two bags."""
     of, cf = [], []
     R = case["ranks"]
     cid = cid_of(case)
@@ -468,67 +482,97 @@ def evaluate_tbag(case, sr, mo):
         of.append({"what": f"real tagged_bag run failed: {sr.verdict}", "signature": "tbag-run-failed " + sr.verdict.split(":")[0],
                    "case": dict(cid, verdict=sr.verdict, stderr=sr.stderr[-400:])})
         return of, cf
-    etags, edumps, egets, esize = interpret_tbag(case)
-    # tags returned, per rank in issue order
-    real_tags = {r: [int(l.split()[1]) for l in sr.outs.get(r, []) if l.startswith("tag ")] for r in range(R)}
-    alltags = [t for r in range(R) for t in real_tags[r]]
-    if len(set(alltags)) != len(alltags):
-        of.append({"what": "two inserts returned the same tag", "signature": "tbag-tag-duplicate", "case": dict(cid, tags=real_tags)})
-    it = {r: iter(real_tags[r]) for r in range(R)}
-    real_in_issue_order = []
-    for r, t in etags:
-        real_in_issue_order.append(next(it[r], None))
-    dumps = [[l for l in sr.outs.get(r, []) if l.startswith("tbag")] for r in range(R)]
-    real_dump_strs = []
-    for d, exp in enumerate(edumps):
-        got = {}
-        for r in range(R):
-            if d >= len(dumps[r]):
-                of.append({"what": "dump missing", "signature": "tbag-output-missing", "case": cid}); return of, cf
-            for tok in dumps[r][d].split()[1:]:
-                t, v, o = (int(x) for x in tok.split(":"))
-                if t in got:
-                    of.append({"what": f"tag {t} is stored twice", "signature": "tbag-stored-twice", "case": dict(cid, dump=d)})
-                if o != r:
-                    of.append({"what": f"tag {t} presented by rank {r} but owner() says {o}", "signature": "tbag-owner", "case": dict(cid, dump=d)})
-                got[t] = v
-        # the oracle speaks through the REAL tags: item k was inserted under the tag its insert returned
-        exp_real = {}
-        remap = {et: rt for (_, et), rt in zip(etags, real_in_issue_order)}
-        for t, v in exp.items():
-            exp_real[remap.get(t, t)] = v
-        if got != exp_real:
-            of.append({"what": f"dump #{d}: items reachable through their tags differ from the sequential result", "signature": "tbag-contents",
-                       "case": dict(cid, dump=d, got=sorted(got.items())[:8], want=sorted(exp_real.items())[:8])})
-        real_dump_strs.append("store " + " ".join(f"{t}:{v}" for t, v in sorted(got.items())))
-    gl = [[l for l in sr.outs.get(r, []) if l.startswith("allgather")] for r in range(R)]
-    real_get_strs = []
-    for g, exp in enumerate(egets):
-        per = [gl[r][g] if g < len(gl[r]) else None for r in range(R)]
-        if any(p != per[0] for p in per):
-            of.append({"what": "all_gather differs between ranks", "signature": "tbag-allgather-differs", "case": dict(cid, got=per)})
-        want = "allgather" + "".join(f" {t}:{v}" for t, v in sorted(exp.items()))
-        if per[0] != want:
-            of.append({"what": f"all_gather returned [{per[0]}], expected [{want}]", "signature": "tbag-allgather", "case": cid})
-        real_get_strs.append("get" + (per[0] or "allgather")[len("allgather"):])
-    for r in range(R):
-        z = [l for l in sr.outs.get(r, []) if l.startswith("size ")]
-        if z and int(z[-1].split()[1]) != esize:
-            of.append({"what": f"size() = {z[-1]} expected {esize}", "signature": "tbag-size", "case": cid}); break
+    cu = Cursor(sr, R)
+    tagpos = [0] * R
+    taglines = [[int(l.split()[1]) for l in sr.outs.get(r, []) if l.startswith("tag ")] for r in range(R)]
+    # per bag: expected live items keyed by the REAL tag, predicted counters, predicted tag -> real tag
+    bags = [{"live": {}, "serial": [0] * R, "p2r": {}} for _ in range(2)]
+    cur = 0
+    real_tags, real_dumps, real_gets = [], [], []
+    seen = set()
+
+    def fail(what, sig, **kw):
+        if sig not in seen:
+            seen.add(sig)
+            of.append({"what": what, "signature": sig, "case": dict(cid, **kw)})
+
+    for k, op in enumerate(case["script"].split(";")):
+        f = op.split()
+        b = bags[cur]
+        if f[0] == "T":
+            cur = int(f[1])
+        elif f[0] == "S":
+            bags[0], bags[1] = bags[1], bags[0]
+        elif f[0] == "i":
+            r = int(f[1])
+            pred = (r << 40) + b["serial"][r]
+            b["serial"][r] += 1
+            if tagpos[r] >= len(taglines[r]):
+                fail("an insert printed no tag", "tbag-output-missing"); return of, cf
+            t = taglines[r][tagpos[r]]; tagpos[r] += 1
+            real_tags.append(t)
+            if t in b["live"]:
+                fail(f"insert #{len(real_tags) - 1} (op {k}, rank {r}) returned tag {t}, which a live item of the same bag already has: tags are not unique",
+                     "tbag-tag-duplicate", tag=t, op=k)
+            b["live"][t] = int(f[2])
+            b["p2r"][pred] = t
+        elif f[0] in ("V", "X"):
+            t = b["p2r"].get(int(f[2]), int(f[2]))
+            if t in b["live"]:
+                b["live"][t] = (b["live"][t] + int(f[3])) & M64
+        elif f[0] == "E":
+            t = b["p2r"].get(int(f[2]), int(f[2]))
+            b["live"].pop(t, None)
+        elif f[0] == "D":
+            d = cu.take("tbag")
+            if d is None:
+                fail("dump missing", "tbag-output-missing"); return of, cf
+            got = {}
+            for r in range(R):
+                for tok in d[r]:
+                    t, v, o = (int(x) for x in tok.split(":"))
+                    if t in got:
+                        fail(f"tag {t} is stored twice", "tbag-stored-twice", op=k)
+                    if o != r:
+                        fail(f"tag {t} presented by rank {r} but owner() says {o}", "tbag-owner", op=k)
+                    got[t] = v
+            if got != b["live"]:
+                lost = sorted(set(b["live"]) - set(got)); wrong = sorted(t for t in got if t in b["live"] and got[t] != b["live"][t])
+                fail(f"dump at op {k}: items reachable through their tags differ from the live items (missing tags {lost[:5]}, wrong values at {wrong[:5]}, "
+                     f"unexpected {sorted(set(got) - set(b['live']))[:5]})", "tbag-contents", op=k, got=sorted(got.items())[:10], want=sorted(b["live"].items())[:10])
+            real_dumps.append("store " + " ".join(f"{t}:{v}" for t, v in sorted(got.items())))
+        elif f[0] == "g":
+            g = cu.take("allgather")
+            if g is None:
+                fail("all_gather output missing", "tbag-output-missing"); return of, cf
+            if any(x != g[0] for x in g):
+                fail("all_gather differs between ranks", "tbag-allgather-differs", got=g)
+            q = sorted(set(b["p2r"].get(int(x), int(x)) for x in f[1].split(",")))
+            want = [f"{t}:{b['live'][t]}" for t in q if t in b["live"]]
+            if g[0] != want:
+                fail(f"all_gather returned {g[0]}, expected {want}", "tbag-allgather", op=k)
+            real_gets.append(("get " + " ".join(g[0])).strip())
+        elif f[0] == "z":
+            z = cu.take("size")
+            if z is None:
+                fail("size output missing", "tbag-output-missing"); return of, cf
+            if any(int(x[0]) != len(b["live"]) for x in z):
+                fail(f"size() = {[x[0] for x in z]} but {len(b['live'])} items are live", "tbag-size", op=k)
     if mo is not None:
-        parts = mo.split(" # ")
+        parts = [p.strip() for p in mo.split(" # ")]
         mtags = [int(p.split()[1]) for p in parts if p.startswith("tag ")]
-        if mtags != real_in_issue_order:
-            bad = next((i for i, (a, b) in enumerate(zip(mtags, real_in_issue_order)) if a != b), None)
-            cf.append({"relation": "BagOps.tag rank serial == tag returned by tagged_bag::async_insert",
-                       "what": f"insert #{bad}: model {mtags[bad] if bad is not None else None} real {real_in_issue_order[bad] if bad is not None else None}", "case": cid})
+        if mtags != real_tags:
+            bad = next((i for i, (a, c) in enumerate(zip(mtags, real_tags)) if a != c), min(len(mtags), len(real_tags)))
+            cf.append({"relation": "BagOps.tag rank serial (counters exchanged by swap) == tag returned by tagged_bag::async_insert",
+                       "what": f"insert #{bad}: model {mtags[bad] if bad < len(mtags) else None} real {real_tags[bad] if bad < len(real_tags) else None}", "case": cid})
         ms = [p for p in parts if p.startswith("store")]
-        ms = [p.strip() for p in ms]
-        if [s.strip() for s in real_dump_strs] != ms:
-            cf.append({"relation": "BagOps.TBag store == contents of tagged_bag after each barrier", "what": f"real {real_dump_strs[:2]} model {ms[:2]}", "case": cid})
-        mg = [p.strip() for p in parts if p.startswith("get")]
-        if [s.strip() for s in real_get_strs] != mg:
-            cf.append({"relation": "BagOps.TBag.get == all_gather", "what": f"real {real_get_strs} model {mg}", "case": cid})
+        if [x.strip() for x in real_dumps] != ms:
+            bad = next((i for i, (a, c) in enumerate(zip(ms, real_dumps)) if a != c.strip()), 0)
+            cf.append({"relation": "BagOps.TBag store == contents of tagged_bag after each barrier",
+                       "what": f"dump #{bad}: real [{real_dumps[bad][:120] if bad < len(real_dumps) else None}] model [{ms[bad][:120] if bad < len(ms) else None}]", "case": cid})
+        mg = [p for p in parts if p.startswith("get")]
+        if real_gets != mg:
+            cf.append({"relation": "BagOps.TBag.get == all_gather", "what": f"real {real_gets} model {mg}", "case": cid})
     return of, cf
 
 
